@@ -69,6 +69,9 @@ def rule_register_rules(ck):
     cl = None
     for f in cands:
         sws = [s for s in switches_on_type(f, "gimli::RegisterRule") or switches_on_type(f, "gimli::read::cfi::RegisterRule")]
+        # the rule-application closure is the one that distinguishes (nearly) all rules; a closure that only
+        # tests for one rule (e.g. `matches!(rule, Undefined)`) is not it
+        sws = [x for x in sws if len(x[1]["arms"]) >= 6]
         if sws:
             cl = (f, sws[0])
             break
@@ -160,10 +163,11 @@ def rule_loop_guards(ck):
         for (sb, tgt) in cuts:
             if _leaves_loop(f, tgt, loop, h):
                 ok2 = True
-    ck.ob("loop.unwind_guards", "unwind/visited-set-exit", ok2, f"{len(ins)} visited-set inserts in the loop", f.loc(h))
+    if ins:
+        ck.ob("loop.unwind_guards", "unwind/visited-set-exit", ok2, f"{len(ins)} visited-set inserts in the loop", f.loc(h))
     for k, p in enumerate(pushes):
         g1 = any(f.dominates(b, p.bb) for b, _ in depth_blocks)
-        g2 = any(f.dominates(c.bb, p.bb) for c in ins)
+        g2 = all(f.dominates(c.bb, p.bb) for c in ins)
         ck.ob("loop.unwind_guards", f"unwind/push#{k}/after-both-guards", g1 and g2, "", f.loc(p.bb))
     r = ck.anchor(f"{UNW}::restore_registers_at_frame")
     nxt = [c for c in r.calls() if is_iter_next(c) and c.bb in r.after(c.bb)]
@@ -176,7 +180,7 @@ def rule_loop_guards(ck):
         has_ra = any(c.name == f"{UCX}::return_address" and c.bb in lp for c in r.calls())
         has_nx = any(c.name == f"{UCX}::next" and c.bb in lp for c in r.calls())
         ck.ob("loop.unwind_guards", "restore_registers_at_frame/loop-body", has_ra and has_nx, f"return_address in loop={has_ra}, next in loop={has_nx}", r.loc(nb))
-        ck.ob("loop.unwind_guards", "restore_registers_at_frame/range-0..frame_num", ok3, f"iterates {e}", r.loc(nb))
+        ck.ob("loop.unwind_guards", "restore_registers_at_frame/range-bounded-by-frame_num", ok3, f"iterates {e}", r.loc(nb))
     else:
         ck.ob("loop.unwind_guards", "restore_registers_at_frame/has-loop", False, "no iterator loop", r.loc())
     upd = [c for c in r.calls() if c.name.endswith("DwarfRegisterMap::update_from")]
@@ -213,7 +217,137 @@ def rule_focus(ck):
     ck.ob("mpt.frame_focus", "set_frame_into_focus/backtrace-of-focus-thread", len(unw) == 1 and "pid_on_focus" in expr_str(expr_of(f, unw[0].args[1]), 5), "", f.loc())
 
 
+DEBUGEE = "debugger::debugee::Debugee"
+
+
+def rule_frame_steps(ck):
+    """frame arithmetic: which frame do the registers handed out by the unwinder belong to"""
+    prog = ck.prog
+    ck.rule("mpt.frame_steps", "an UnwindContext built for frame i keeps the registers *after* applying frame i's register rules (= frame i+1's registers, its stack pointer patched by `next` with frame i's CFA); unwind() therefore reads frame i+1's pc from context i. restore_registers_at_frame(n) must hand out frame n's registers: the context of frame n-1 (n-1 `next` steps after the initial context) with the stack pointer set to that context's CFA. The CFA of the frame in focus is evaluated over that frame's registers; frame_info identifies the frame by the focus frame number; the cycle guard identifies a frame by (return address, CFA) because recursion repeats return addresses")
+    new = ck.anchor(f"{UCX}::new")
+    # convention: Self.registers = the map the rule closure updates
+    agg = [(i, rv) for i, j, pl, rv, sp in new.assigns() if rv["r"] == "agg" and rv["name"] == UCX]
+    if ck.ob("mpt.frame_steps", "new/one-construction", len(agg) == 1, "", new.loc()):
+        i, rv = agg[0]
+        flds = dict(zip(rv.get("fields", []), rv["ops"]))
+        regl = _root_local(new, flds.get("registers"))
+        upd_target = None
+        for g in [prog.fns[p] for p in prog.closures_of(new.path)]:
+            for c in g.calls():
+                if c.name.endswith("DwarfRegisterMap::update"):
+                    e = expr_str(expr_of(g, c.args[0], depth=8), 8)
+                    m = re.search(r"arg1\.?(\d+)?", e)
+                    ups = g.raw.get("upvars", [])
+                    upd_target = (g, e, ups)
+        names = {k: v[1] for k, v in enumerate(new.raw["locals"])}
+        ck.ob("mpt.frame_steps", "new/keeps-rule-applied-registers", regl is not None and names.get(regl) == "next_registers" and upd_target is not None and any("next_registers" in u for u in upd_target[2]), f"registers field = local `{names.get(regl)}`; rule closure captures {upd_target[2] if upd_target else None}", new.loc(i))
+    # restore_registers_at_frame(n): steps
+    r = ck.anchor(f"{UNW}::restore_registers_at_frame")
+    news = [c for c in r.calls() if c.name == f"{UCX}::new"]
+    nxt = [c for c in r.calls() if is_iter_next(c) and c.bb in r.after(c.bb)]
+    steps_ok, d = False, "no loop"
+    if len(news) == 1 and nxt:
+        nb = nxt[0].bb
+        lp = {b for b in r.after(nb) if nb in r.after(b)}
+        nx_in = [c for c in r.calls() if c.name == f"{UCX}::next" and c.bb in lp]
+        rng = None
+        for i, j, pl, rv, sp in r.assigns():
+            if rv["r"] == "agg" and rv["name"].endswith("ops::Range") and i not in lp:
+                rng = [expr_of(r, o, depth=6) for o in rv["ops"]]
+        if rng and len(nx_in) == 1 and news[0].bb not in lp:
+            a, b = rng
+            fn_ = ("arg", 4)
+            # initial context = 1 application; each loop turn one more; registers() of the last context = frame (1 + turns)
+            if a == ("const", 1) and b == fn_:
+                steps_ok = True
+            elif a == ("const", 0) and b[0] == "bin" and b[1].startswith("Sub") and b[2] == fn_ and b[3] == ("const", 1):
+                steps_ok = True
+            d = f"1 initial context + loop over {expr_str(a)}..{expr_str(b)} `next` steps, result taken from the last context's registers"
+    ck.ob("mpt.frame_steps", "restore_registers_at_frame/hands-out-frame-n", steps_ok, d + (" => registers of frame n+1 (callee-saved registers one frame too far)" if not steps_ok else ""), r.loc(), what="restore_registers_at_frame(n) applies n+1 register-rule steps: rbp/rbx/r12..r15 and rip of the *caller* of the selected frame are handed out")
+    # the handed out stack pointer is the last context's CFA
+    upd = [c for c in r.calls() if c.name.endswith("DwarfRegisterMap::update")]
+    wb = [c for c in r.calls() if c.name.endswith("DwarfRegisterMap::update_from")]
+    ok = False
+    for c in upd:
+        rs = expr_str(expr_of(r, c.args[1], depth=8), 8)
+        vs = expr_str(expr_of(r, c.args[2], depth=8), 8)
+        if "Rsp" in rs and ".cfa" in vs and wb and r.dominates(c.bb, wb[0].bb):
+            ok = True
+    if steps_ok:
+        # the last `next` (which used to patch the stack pointer) is no longer taken for frame n-1 -> n
+        ck.ob("mpt.frame_steps", "restore_registers_at_frame/sp=cfa-of-previous-frame", ok, "", r.loc())
+    # get_cfa over the registers of the frame in focus
+    gc = ck.anchor("debugger::debugee::dwarf::DebugInformation::get_cfa")
+    ev = [c for c in gc.calls() if c.name.endswith("DebugInformation::evaluate_cfa")]
+    rs_ = [c for c in gc.calls() if c.name.endswith("::restore_registers_at_frame")]
+    ok = len(ev) == 1 and len(rs_) == 1 and gc.dominates(rs_[0].bb, ev[0].bb) and "frame_num" in expr_str(expr_of(gc, rs_[0].args[-1], depth=6), 6)
+    ck.ob("mpt.frame_steps", "get_cfa/registers-of-frame-in-focus", ok, f"{len(rs_)} restore_registers_at_frame calls before evaluate_cfa", gc.loc(), what="the CFA rule of the selected frame is evaluated over the live (frame 0) registers: every selected frame reports frame 0's CFA")
+    # frame_info
+    fi = ck.anchor(DEBUGEE + "::frame_info")
+    fis = [fi] + [prog.fns[p] for p in prog.closures_of(fi.path)]
+    agg = [(i, rv) for i, j, pl, rv, sp in fi.assigns() if rv["r"] == "agg" and rv["name"].endswith("debugee::FrameInfo")]
+    if ck.ob("mpt.frame_steps", "frame_info/one-result", len(agg) == 1, "", fi.loc()):
+        i, rv = agg[0]
+        flds = dict(zip(rv.get("fields", []), rv["ops"]))
+        uses_fnum = any(c.name.endswith("ExplorationContext::frame_num") for g in fis for c in g.calls())
+        ck.ob("mpt.frame_steps", "frame_info/frame-chosen-by-focus-frame-number", uses_fnum, "the frame is looked up by instruction pointer only: with recursion the innermost activation with that ip is described", fi.loc(i), what="frame_info picks the first backtrace entry whose ip equals the focus pc; recursive activations share the ip")
+        for nm in ("frame", "num", "cfa", "base_addr", "return_addr"):
+            e = expr_of(fi, flds[nm], depth=14) if nm in flds else ("unknown",)
+            calls = set(expr_calls(e))
+            txt = expr_str(e, 14)
+            sens = ("location(" in txt) or ("frame_num(" in txt) or any(x.endswith(("::get_cfa", "::frame_base_addr")) for x in calls) or ("find(" in txt or "position(" in txt or "skip(" in txt or "nth(" in txt or "get(" in txt)
+            only_pid = ("pid_on_focus(" in txt) and not sens
+            ck.ob("mpt.frame_steps", f"frame_info/{nm}/depends-on-selected-frame", sens and not only_pid, f"{nm} = {txt[:140]}", fi.loc(i), what=f"FrameInfo.{nm} is computed from the thread alone (frame 0), not from the frame in focus")
+    # end of stack: a frame whose return-address rule is `undefined` has no caller (DWARF 6.4.4); without this the
+    # stale return address of `_start` is followed until some other guard fires
+    ra = ck.anchor(f"{UCX}::return_address")
+    guard = None
+    for b, blk in enumerate(ra.blocks):
+        t = blk["term"]
+        if t["t"] == "switch" and ".outermost" in expr_str(expr_of(ra, t["discr"], depth=4), 4):
+            guard = b
+    reads = [c for c in ra.calls() if c.name.endswith("DwarfRegisterMap::value")]
+    ck.ob("mpt.frame_steps", "return_address/none-for-outermost-frame", guard is not None and all(ra.dominates(guard, c.bb) for c in reads), "", ra.loc(), what="the unwinder follows the stale return address of the outermost frame (return-address rule `undefined`)")
+    flds = dict(zip(agg[0][1].get("fields", []), agg[0][1]["ops"])) if False else None
+    nagg = [(i, rv) for i, j, pl, rv, sp in new.assigns() if rv["r"] == "agg" and rv["name"] == UCX]
+    ok = False
+    if len(nagg) == 1:
+        fl = dict(zip(nagg[0][1].get("fields", []), nagg[0][1]["ops"]))
+        if "outermost" in fl:
+            e = expr_of(new, fl["outermost"], depth=8)
+            txt = expr_str(e, 8)
+            cl_ok = False
+            for g in [prog.fns[p] for p in prog.closures_of(new.path)]:
+                und = [1 for b in g.blocks if b["term"]["t"] == "switch"]
+                if any("RegisterRule" in (rv.get("ty") or "") for i, j, pl, rv, sp in g.assigns() if rv["r"] == "discr") and any(rv["r"] == "bin" and rv["op"] == "Eq" for i, j, pl, rv, sp in g.assigns()) or any(c.name.endswith("PartialEq>::eq") or c.name.endswith("::eq") for c in g.calls()):
+                    ups = g.raw.get("upvars", [])
+                    if any("ra_register" in u or "return_address" in u for u in ups):
+                        cl_ok = True
+            ok = "any(" in txt and "registers(" in txt and cl_ok
+    ck.ob("mpt.frame_steps", "new/outermost=explicit-undefined-rule-for-RA-register", ok, "", new.loc())
+    # cycle guard key
+    f = ck.anchor(f"{UNW}::unwind")
+    ins = [c for c in f.calls() if re.search(r"HashSet::<T, S(, A)?>::insert$", c.name) and c.bb in f.after(c.bb)]
+    for k, c in enumerate(ins):
+        key = expr_str(expr_of(f, c.args[1], depth=8), 8)
+        ck.ob("mpt.frame_steps", f"unwind/cycle-guard#{k}/keyed-by-(ip,cfa)", ".cfa" in key, f"key = {key[:120]}", f.loc(c.bb), what="the unwind loop stops at the first repeated return address: direct recursion repeats the return address, the backtrace is cut after the first recursive frame")
+
+
+def _root_local(f, op):
+    if op is None:
+        return None
+    l = op_local(op)
+    for _ in range(8):
+        ds = defs_of(f, l) if l is not None else []
+        if len(ds) == 1 and ds[0][0] == "assign" and ds[0][2]["r"] == "use" and op_local(ds[0][2]["op"]) is not None and len(op_place(ds[0][2]["op"])) == 1:
+            l = op_local(ds[0][2]["op"])
+        else:
+            break
+    return l
+
+
 def run(ck):
+    rule_frame_steps(ck)
     regs.rule_numbering(ck)
     rule_wiring(ck)
     rule_register_rules(ck)
